@@ -5,7 +5,8 @@ Exit codes of bin/check:  0 held (possibly with KNOWN-FINDING lines) / 1 VIOLATI
 import os, sys, json, time, re, hashlib, tempfile, shutil, subprocess, traceback
 
 VERIF = os.path.dirname(os.path.dirname(os.path.dirname(os.path.abspath(__file__))))
-EVID = os.path.join(VERIF, "evidence")
+# VERIF_EVIDENCE_DIR: runs against scratch trees (bin/seedstatus) write their evidence and replays elsewhere
+EVID = os.environ.get("VERIF_EVIDENCE_DIR") or os.path.join(VERIF, "evidence")
 REPLAYS = os.path.join(EVID, "replays")
 
 
